@@ -231,6 +231,20 @@ class Typer:
                         self.subscript(s.target, store=True)
                 elif isinstance(s, (ast.If, ast.While)):
                     self.ty(s.test)
+                elif isinstance(s, ast.For):
+                    # iterating an array of positions yields positions of the space its VALUES live in
+                    # (`for b in sorted_breakpoints` == `b = sorted_breakpoints[k]` for a counter k of its own space)
+                    it = s.iter
+                    while isinstance(it, ast.Call) and dotted(it.func) in ("iter", "list", "tuple") and len(it.args) == 1:
+                        it = it.args[0]
+                    t = self.ty(it)
+                    if isinstance(s.target, ast.Name):
+                        if isinstance(t, Arr) and isinstance(t.V, tuple) and t.V[0] == "idx":
+                            self.env[s.target.id] = Idx(t.V[1])
+                        elif isinstance(it, ast.Call) and dotted(it.func) == "range":
+                            self.env[s.target.id] = Ctr()
+                        elif s.target.id not in self.env:
+                            self.env[s.target.id] = TOP
                 elif isinstance(s, ast.Expr):
                     self.ty(s.value)
                 elif isinstance(s, ast.Return) and s.value is not None:
